@@ -132,6 +132,8 @@ func c11Scopes() []c11Scope {
 		{"root", "p", map[string]string{"r": "0"}, func(r tally.Scope) tally.Scope { return r }},
 		{"sub", "p.a", map[string]string{"r": "0"}, func(r tally.Scope) tally.Scope { return r.SubScope("a") }},
 		{"tag", "p", map[string]string{"r": "0", "k": "1"}, func(r tally.Scope) tally.Scope { return r.Tagged(map[string]string{"k": "1"}) }},
+		// a derivation that ends at the root's own prefix and tags: metrics recorded through it are the root's
+		{"rootagain", "p", map[string]string{"r": "0"}, func(r tally.Scope) tally.Scope { return r.Tagged(map[string]string{}) }},
 		{"subtag", "p.a", map[string]string{"r": "1", "k": "2"}, func(r tally.Scope) tally.Scope {
 			return r.SubScope("a").Tagged(map[string]string{"k": "2", "r": "1"})
 		}},
@@ -141,7 +143,11 @@ func c11Scopes() []c11Scope {
 func c11Alphabet() []string {
 	var a []string
 	for _, sc := range c11Scopes() {
-		for _, m := range []string{"inc 1", "inc -2", "upd 1.5", "upd -0.25", "rec 3", "hv 1", "hv 2.5", "hd 1", "hd 7"} {
+		ms := []string{"inc 1", "inc -2", "upd 1.5", "upd -0.25", "rec 3", "hv 1", "hv 2.5", "hd 1", "hd 7"}
+		if sc.label == "rootagain" {
+			ms = []string{"inc 1", "rec 3", "hv 1"}
+		}
+		for _, m := range ms {
 			a = append(a, sc.label+" "+m)
 		}
 	}
@@ -153,7 +159,7 @@ func c11Exec(alphabet []string) func(hist []int) (string, string, string, int) {
 	scopes := c11Scopes()
 	return func(hist []int) (cl, det, key string, steps int) {
 		cl, det = guard(func() (string, string) {
-			root := tally.VerifNewTestScopeOpts(tally.ScopeOptions{Prefix: "p", Tags: map[string]string{"r": "0"}}, 1)
+			root := tally.VerifNewTestScopeOpts(tally.ScopeOptions{Prefix: "p", Tags: map[string]string{"r": "0"}}, 4)
 			m := newC11Model()
 			live := map[string]tally.Scope{}
 			inert := map[string]bool{}
@@ -406,5 +412,28 @@ func c11Scenarios(tier string) []*Scenario {
 		}
 	}
 	sc2.Check = func(x *Run, o *rt.Outcome) (string, string, string) { return "", "", "ok" }
-	return []*Scenario{sc, sc2}
+	// Q3: one goroutine derives, records and closes a subscope while another derives the same one
+	// and records: test scopes and what was recorded on them survive Close
+	sc3 := &Scenario{Property: "C11", Name: "Q3-close-while-another-goroutine-derives"}
+	sc3.Body = func(x *Run) {
+		root := tally.VerifNewTestScopeOpts(tally.ScopeOptions{Prefix: "p"}, 1)
+		a := rt.GoNamed("a", func() {
+			s := root.Tagged(map[string]string{"k": "1"})
+			s.Counter("c").Inc(1)
+			closeScope(s)
+		})
+		b := rt.GoNamed("b", func() {
+			s := root.Tagged(map[string]string{"k": "1"})
+			s.Counter("c").Inc(2)
+		})
+		a.Join()
+		b.Join()
+		snap := root.Snapshot()
+		c := snap.Counters()["p.c+k=1"]
+		if c == nil || c.Value() != 3 {
+			x.failf("closed-test-scope-lost-its-metrics", "1 and 2 were recorded on test scope p{k=1} (closed by one goroutine in between); snapshot shows %v", c)
+		}
+	}
+	sc3.Check = func(x *Run, o *rt.Outcome) (string, string, string) { return "", "", "ok" }
+	return []*Scenario{sc, sc2, sc3}
 }
